@@ -107,9 +107,11 @@ def replay_word(inputs):
 
 def first_match_cases(rng, tier):
     pats = ["/", "/a", "/a/{x}", "/a/{x:int}", "/{y:any}", "/a/b", "/{x}/b", "/a/{x:int}/{z}", "/a.b", "/a+b", "/(a)",
-            "/a}}b", "/{{x", "/a}b/{x:int}"]        # literal braces
+            "/a}}b", "/{{x", "/a}b/{x:int}",        # literal braces
+            "/p/{m:decimal}/{c}", "/s/{f:decimal}/{t:int}", "/d/{u:decimal}/{v:decimal}"]   # a convertor whose regex has a group of its own
     paths = ["/", "/a", "/a/1", "/a/b", "/a/x/y", "/b", "", "/a/", "/axb", "/a.b", "/a+b", "/aab", "/(a)", "/a/1\n",
-             "/a}}b", "/a}b", "/{{x", "/{x", "/a}b/7", "/ab/7"]
+             "/a}}b", "/a}b", "/{{x", "/{x", "/a}b/7", "/ab/7",
+             "/p/1.5/usd", "/p/15/usd", "/s/2.25/3", "/s/2/3", "/d/1.5/2.5", "/d/1/2"]
     tables = []
     for n in (1, 2, 3):
         allp = list(itertools.permutations(pats, n))
@@ -142,6 +144,16 @@ def spec_dispatch(table, path):
             if ok:
                 return i
     return None
+
+
+def spec_params(pat, path):
+    """the typed parameters the statement promises for `path` on the route `pat` (which matches)"""
+    m = re.fullmatch(spec_pattern(pat), path)
+    out = {}
+    for name, val in m.groupdict().items():
+        t = (re.search(r"{%s(:\w+)?}" % name, pat).group(1) or ":str")[1:]
+        out[name] = spec_value(t, val)
+    return out
 
 
 def check_table(table, path):
@@ -183,6 +195,11 @@ def check_table(table, path):
                 v.append("%s: no route matches but status %s / route %s called" % (iface, status, got))
         elif got != want:
             v.append("%s: route %s called, first matching route is %s" % (iface, got, want))
+        else:
+            wp = spec_params(table[want], path)
+            gp = hit[key][1]
+            if gp != wp or any(type(gp[k]) is not type(wp[k]) for k in wp):
+                v.append("%s: route %s received the parameters %r, expected %r" % (iface, got, gp, wp))
     return v
 
 
